@@ -110,6 +110,12 @@ def main():
             failures.append({"signature": "corr:chains_covered", "what": f"{nm}: a formulated chain is not among the registered graphs", "case": cases[nm][0]})
         init = head.get("init")
         init = init.get("inr") if isinstance(init, dict) else None
+        nkeys = len(L.ctx(nm).new_builder(False).dynamics)
+        if init is not None and nkeys != len(init) and nkeys == head.get("init_pinned_len"):
+            failures.append({"signature": "permuted_chain_dynamics_dropped",
+                             "what": f"{nm}: the selector registers only the reaction's own transitions ({nkeys} keys, "
+                                     f"{len(init)} with the identical-particle graphs): permuted chains lose their dynamics",
+                             "case": cases[nm][0]})
         crng = random.Random(seed * 7919 + 13)
         for k, case in enumerate(cases[nm]):
             obs = L.run_impl(case)
